@@ -644,7 +644,6 @@ func (g *TransferGen) Run(nOps int) {
 
 var _ = sdk.AccAddress{}
 
-
 func (g *TransferGen) recvWithOracles(c *tibctesting.TestChain, signer int, p packettypes.Packet, tok string, ps ProofSpec, h uint64) *abci.ExecTxResult {
 	var nb map[pos]string
 	var mb mtBal
